@@ -6,6 +6,6 @@ FaultsQuick == {Beh("raise", "fail", 0), Beh("raise", "skip", 0), Beh("dfire", N
                 Beh("dfail", "err", 2), Beh("never", None, Never)}
 FaultsAll == Behaviours \ {Ret}
 Sd(u, w) == [unit |-> u, what |-> w]
-SidesQuick == {Sd("body", "leave"), Sd("body", "logerr"), Sd("tearDown", "drop")}
-SidesAll == {Sd(u, w) : u \in AllUnits, w \in {"leave", "logerr", "drop"}}
+SidesQuick == {Sd("body", "leave"), Sd("body", "logerr"), Sd("tearDown", "drop"), Sd("tearDown", "chain0")}
+SidesAll == {Sd(u, w) : u \in AllUnits, w \in {"leave", "logerr", "drop", "chain0"}}
 =============================================================================
